@@ -25,8 +25,8 @@ SHIPPED_EVENTS = {
 
 class C09(InterpProp):
     id = 'C09'
-    quick_cases = 150
-    thorough_cases = 3000
+    quick_cases = 600
+    thorough_cases = 20000
     n_ops = 30
     with_contracts = 0.7
     rule = ('every random chart with contracts (and, 1 case in 6, a shipped elevator/microwave contract chart under a '
